@@ -293,8 +293,33 @@ def oracle_files_c04(wd, n, idle_total, live, problems, tol=Fraction(1, 10**7)):
     return len(rows)
 
 
+def is_staircase(W):
+    """hypothesis of C05_sort_terminates: slot 0 holds a [0-] row, plus rows are non-zero on a prefix of the plus columns"""
+    n = len(W)
+    if W[0][0] == 0 or any(W[0][c] != 0 for c in range(1, n)):
+        return False
+    for r in range(1, n - 1):
+        if W[r][0] != 0:
+            return False
+        seen_zero = False
+        for c in range(1, n - 1):
+            if W[r][c] == 0:
+                seen_zero = True
+            elif seen_zero:
+                return False
+    return True
+
+
 def oracle_c05(rec, problems):
     n = rec.n
+    rec.stair_ok = getattr(rec, "stair_ok", 0)
+    rec.stair_not = getattr(rec, "stair_not", 0)
+    for op in rec.ops:
+        if op["kind"] == "treat" and op.get("pre_sort"):
+            if is_staircase(op["pre_sort"]["W"]):
+                rec.stair_ok += 1
+            else:
+                rec.stair_not += 1
     if rec.hang:
         problems.append("sort_trajstate did not terminate (watchdog)")
     last_tn = rec.init["traj_num"]
@@ -357,7 +382,7 @@ def run_case(case):
     wd = H.scratch("infv_rx_")
     out = {"model": [], "C02": [], "C03": [], "C04": [], "C05": [], "stats": {"ops": 0, "treats": 0, "zero_swaps": 0, "segments": 0,
                                                                      "acc": 0, "rej": 0, "max_inflight": 0, "sort_swaps": 0,
-                                                                     "relocks": 0, "data_rows": 0, "P_from_coq_model": 0}}
+                                                                     "relocks": 0, "data_rows": 0, "P_from_coq_model": 0, "staircase_states": 0, "non_staircase_states": 0}}
     try:
         kw = {}
         if case.get("multi_engine"):
@@ -395,6 +420,8 @@ def run_case(case):
             oracle_c03(rec, p3)
             ic = oracle_c04(rec, p4)
             oracle_c05(rec, p5)
+            out["stats"]["staircase_states"] += rec.stair_ok
+            out["stats"]["non_staircase_states"] += rec.stair_not
             for c in range(n):
                 idle_total[c] += ic[c]
             out["C03"] += [f"segment {seg}: {p}" for p in p3]
